@@ -687,6 +687,9 @@ func (c *Conn) saveAndClearAllUpstreams(ctx context.Context) {
 			continue
 		}
 	}
+	for up := range c.upstreams {
+		up.cancel() // closed with the connection, not some time later by the stream's watcher goroutine
+	}
 	c.upstreams = make(map[*Upstream]struct{})
 }
 
@@ -698,6 +701,9 @@ func (c *Conn) saveAndClearAllDownstreams(ctx context.Context) {
 			c.logger.Warnf(ctx, "[%v] downstream repository save error: %v", down.ID, err)
 			continue
 		}
+	}
+	for down := range c.downstreams {
+		down.cancel() // closed with the connection, not some time later by the stream's watcher goroutine
 	}
 	c.downstreams = make(map[*Downstream]struct{})
 }
